@@ -1,6 +1,8 @@
 package types
 
 import (
+	"bytes"
+	"encoding/json"
 	"fmt"
 	"github.com/f1bonacc1/process-compose/src/command"
 	"github.com/f1bonacc1/process-compose/src/health"
@@ -106,8 +108,8 @@ func (p *ProcessConfig) Compare(another *ProcessConfig) bool {
 		!reflect.DeepEqual(p.LivenessProbe, another.LivenessProbe) ||
 		!reflect.DeepEqual(p.ReadinessProbe, another.ReadinessProbe) ||
 		!reflect.DeepEqual(p.ShutDownParams, another.ShutDownParams) ||
-		!reflect.DeepEqual(p.Vars, another.Vars) ||
-		!reflect.DeepEqual(p.Extensions, another.Extensions) ||
+		!jsonEqual(p.Vars, another.Vars) ||
+		!jsonEqual(p.Extensions, another.Extensions) ||
 		!reflect.DeepEqual(p.DependsOn, another.DependsOn) ||
 		!reflect.DeepEqual(p.RestartPolicy, another.RestartPolicy) ||
 		!reflect.DeepEqual(p.Environment, another.Environment) ||
@@ -119,6 +121,19 @@ func (p *ProcessConfig) Compare(another *ProcessConfig) bool {
 
 	return true
 }
+
+// jsonEqual reports whether two values have the same JSON encoding. Free-form maps (vars, x-
+// extensions) that arrived through the REST API hold float64 where the loader produced int, so
+// reflect.DeepEqual would report every process as changed.
+func jsonEqual(a, b interface{}) bool {
+	ja, errA := json.Marshal(a)
+	jb, errB := json.Marshal(b)
+	if errA != nil || errB != nil {
+		return reflect.DeepEqual(a, b)
+	}
+	return bytes.Equal(ja, jb)
+}
+
 func (p *ProcessConfig) AssignProcessExecutableAndArgs(shellConf *command.ShellConfig, elevatedShellArg string) {
 	if p.Command != "" || len(p.Entrypoint) == 0 {
 		if len(p.Entrypoint) > 0 {
